@@ -66,7 +66,7 @@ func (w *w1World) planPause(replica int, p *w1Payload, arrive time.Time, amount 
 	// the bucket of second t becomes ready at the boundary t+ShortWindow+1 and is handed to an inserter by
 	// the replica with t%3 == replica index
 	boundary := arrive.Truncate(time.Second).Add(time.Second).Unix()
-	want := int64(replica + 1 + w.cfg.shortWindow)
+	want := int64(replica + 1 + w1ShortWindow(w.reps[replica].agg))
 	k := ((want-boundary)%3 + 3) % 3
 	return &w1Pause{target: target, yields: int(amount(w1SaltPauseYields, 4))}, time.Duration(k) * time.Second
 }
